@@ -15,7 +15,7 @@ Verdict(r) ==
          Cl("C16_ServerAccepts", SG!C16_Accepts(r)) \cup Cl("C16_KeyAccompanies", SG!C16_KeyAccompanies(r))
          \cup Cl("C16_Fresh", SG!C16_Fresh(r, r.tol_ms)) \cup Cl("C16_NonceUnique", ~r.nonce_repeated)
     [] r.kind = "decimal" -> Cl("C17_Plain", WF!C17_Plain(r)) \cup Cl("C17_ExactText", WF!C17_ExactText(r))
-    [] r.kind = "route" -> Cl("C17_OmitUnset", r.unexpected = <<>>) \cup Cl("C17_Endpoint", WF!C17_Endpoint(r))
+    [] r.kind = "route" -> Cl("C17_OmitUnset", WF!C17_OmitUnset(r)) \cup Cl("C17_Endpoint", WF!C17_Endpoint(r))
     [] r.kind = "timestamp" -> Cl("C17_Timestamp", WF!C17_Timestamp(r))
     [] r.kind = "status" -> Cl("C17_Status", WF!C17_Status(r))
     [] r.kind = "payload_sum" -> Cl("C17_PayloadSum", WF!C17_PayloadSum(r))
